@@ -31,7 +31,7 @@ CHECK_DEADLOCK FALSE
 
 UNIVERSES = {
     "quick": [("lists", 2), ("nested", 1), ("objects", 2), ("strings", 1)],
-    "thorough": [("lists", 3), ("nested", 2), ("objects", 2), ("strings", 2)],
+    "thorough": [("lists", 2), ("lists3", 3), ("nested", 1), ("objects", 2), ("strings", 2)],
 }
 
 C02_CLAUSES = ("Completes", "RoundTrip", "PyPatch", "PyPatchIsSpecPatch", "EmptyOnlyIfSame")
